@@ -58,7 +58,7 @@ META = {
                                  'high_line_numbers_seen', 'long_lines_seen', 'converter_runs', 'corpus_programs', 'protected_hidden_resave_seen',
                                  'session_steps', 'session_unprotected_after_protected_seen_hidden',
                                  'tape_length_cases', 'tape_A_followed_by_another_file', 'tape_B_followed_by_another_file',
-                                 'tape_P_followed_by_another_file']},
+                                 'tape_P_followed_by_another_file', 'programs_with_line_zero']},
     'timeout': {'quick': 900, 'thorough': 7200},
 }
 
@@ -468,6 +468,11 @@ def gen_program(rng, res):
     r = rng.random()
     k = rng.choice([rng.randint(1, 8), rng.randint(8, 25), rng.randint(25, 50)])
     nums = sorted(rng.sample(range(0, 65530), k)) if rng.random() < 0.5 else [10 * (i + 1) for i in range(k)]
+    if rng.random() < 0.2 and nums[0] != 0:
+        # line number 0 (listed with its own spacing rule)
+        nums[0] = 0
+    if nums[0] == 0:
+        res.count('programs_with_line_zero')
     if r < 0.30:
         lines = []
         for i, n in enumerate(nums):
@@ -610,6 +615,8 @@ def run_directed(spec, res):
     fixed = [
         ([b'10 PRINT "HELLO"', b'20 GOTO 10'], 'two-lines'),
         ([b'0 REM first', b'65529 END'], 'boundary-numbers'),
+        ([b'0 PRINT "zero"', b'10 PRINT "ten"'], 'line-zero'),
+        ([b'0  PRINT "zero"', b'1 \tPRINT 1', b'2\tPRINT 2', b'10   REM x'], 'line-zero-and-leading-blanks'),
         ([b'10 A$="%s"' % (b'x' * 240)], 'long-line'),
         # listings of exactly 254 and 255 characters: the line buffer limit
         ([b'10 REM ' + b'x' * 247, b'20 PRINT "' + b'y' * 244 + b'"', b'30 REM ' + b'z' * 248, b'40 END'], 'max-length-lines'),
